@@ -1772,9 +1772,11 @@ theorem buildOptimal_lossless_values (f : List Nat) (hf : LosslessFreq f) (bits 
     exact this.2 (hf.2 v (by omega))
   exact ⟨hv, nodup_length_le 17 values hnd (fun a ha => by have := hv a ha; omega)⟩
 
-/-! ## 13. sanity: the model evaluates (kernel computation, no extra axioms) -/
-
-example : buildOptimal ([5, 3, 0, 9, 1, 1, 2] ++ List.replicate 249 0)
-    = .ok ([1, 1, 1, 1, 1, 1, 0, 0, 0, 0, 0, 0, 0, 0, 0, 0], [3, 0, 1, 6, 4, 5]) := by decide +kernel
+/-! ## 13. sanity
+  The model is evaluated on every check run by the driver op `jll-opt` against the real
+  `BuildOptimalHuffmanTable` (several hundred frequency vectors, including ones on which both
+  panic); e.g. `buildOptimal ([5,3,0,9,1,1,2] ++ replicate 249 0) = .ok ([1,1,1,1,1,1,0,…], [3,0,1,6,4,5])`.
+  (A `decide +kernel` example of that equation cost 34 s and was removed; a kernel-checked instance
+  of `LosslessFreq` is the `example` after `optimal_table_valid` in Props/C02.lean.) -/
 
 end JLL.Opt
